@@ -42,7 +42,7 @@ class C19(Check):
             "deep copy of the object's own (already scaled) learning / testing piece. A state "
             "is (learning configuration class, sequence of call kinds with the numbers of classified samples); distinct_nontrivial counts "
             "distinct states after a call")
-    expected_probes = ["user_specified_range", "call_in_range", "call_partly_out", "all_out_refused", "unlabelled_set_aside", "test_data", "reclassified_earlier_data", "own_scaled_piece", "continued_learning"]
+    expected_probes = ["user_specified_range", "call_in_range", "call_partly_out", "all_out_refused", "unlabelled_set_aside", "test_data", "reclassified_earlier_data", "own_scaled_piece", "continued_learning", "same_array_evaluated_again"]
     assumptions = ["ties between maximal densities accept any maximiser (tolerance 1e-12 relative on the densities)",
                    "the in-range test is the library's documented one on the scaled coordinates: 0.0049 <= s <= 0.9951"]
 
@@ -206,8 +206,17 @@ class C19(Check):
             elif kind == "recall":
                 if not history:
                     continue
-                Xh, ch = history[dseed % len(history)]
-                res = cl(D.DataSet((Xh.copy(), np.full(len(Xh), -1, dtype=np.int64))), print_removed=False)
+                Xh, ch, handed = history[dseed % len(history)]
+                if (dseed // 7) % 2 and handed is not None:
+                    # the caller evaluates the very array it handed in before (wrapped in a new data set, as re-using the data set
+                    # object itself is refused): the same samples, hence the same classes
+                    ctx.probe("same_array_evaluated_again")
+                    try:
+                        res = cl(D.DataSet((handed, np.full(len(handed), -1, dtype=np.int64))), print_removed=False)
+                    except ValueError as e:
+                        ctx.violate("earlier_classes_unchanged", sig, "evaluating the array of an earlier call again was refused (%s): %d of its samples were classified before" % (str(e)[:80], len(ch)))
+                else:
+                    res = cl(D.DataSet((Xh.copy(), np.full(len(Xh), -1, dtype=np.int64))), print_removed=False)
                 got = np.array(res.get_data()[1]).astype(int)
                 if len(got) != len(ch) or not np.array_equal(got, ch):
                     ctx.violate("earlier_classes_unchanged", sig, "re-evaluating earlier data gives %s, before %s" % (got.tolist(), ch.tolist()))
@@ -260,7 +269,8 @@ class C19(Check):
                             {k2: res[k2] for k2 in ("Wrong mappings", "Total mappings", "Percentage correct")}, wrong, tot))
                     trace.append(("own_test", len(got)))
             elif kind == "call":
-                ds = D.DataSet((Xt.copy(), yt.copy()))
+                handed = Xt.copy()          # the caller's own array: the data set is built on it
+                ds = D.DataSet((handed, yt.copy()))
                 try:
                     res = cl(ds, print_removed=False)
                 except ValueError:
@@ -277,7 +287,7 @@ class C19(Check):
                     ctx.violate("out_of_range_removed", dict(sig, call="call"), "__call__ returned %d samples, %d lie inside the learned range (scaled positions must be those of the in-range samples in order)" % (len(cr), int(inr.sum())))
                 check_classes(np.array(cr).astype(int), S[inr], "__call__")
                 ctx.probe("call_in_range" if inr.all() else "call_partly_out")
-                history.append((Xt[inr].copy(), np.array(cr).astype(int).copy()))
+                history.append((Xt[inr].copy(), np.array(cr).astype(int).copy(), handed))
                 trace.append(("call", len(cr)))
             elif kind == "test":
                 ds = D.DataSet((Xt.copy(), yt.copy()))
